@@ -436,6 +436,8 @@ func newDocsRun(r *gen.Rand, malformed, rich bool, tmp string) *docsRun {
 		d.keys = append(d.keys, key)
 		d.branches[key] = []string{"main"}
 		switch rc.kind {
+		case "bad-truncated":
+			d.want = append(d.want, "*") // a malformed stream: only the model says what happens
 		case "missing":
 			d.want = append(d.want, "missing:-")
 		case "excluded":
@@ -482,7 +484,7 @@ func (d *docsRun) finishStage(w *gen.Writer, schedule string) {
 		var outs []string
 		for i, k := range d.keys {
 			outs = append(outs, byName[k.Path])
-			if byName[k.Path] != d.want[i] && verdict == "ok" {
+			if d.want[i] != "*" && byName[k.Path] != d.want[i] && verdict == "ok" {
 				verdict = fmt.Sprintf("schedule %s: document %s is %s, its blob gives %s", schedule, k.Path, byName[k.Path], d.want[i])
 			}
 		}
